@@ -2,6 +2,7 @@ package main
 
 import (
 	"bufio"
+	"context"
 	"encoding/json"
 	"fmt"
 	"os"
@@ -10,6 +11,7 @@ import (
 	"sort"
 	"strconv"
 	"strings"
+	"time"
 
 	"github.com/pentops/j5/lib/verifshim/bcl"
 	"github.com/pentops/j5/lib/verifshim/cmpb"
@@ -40,6 +42,7 @@ func spansCoq(ss []span4) string {
 }
 
 type frontObs struct {
+	FirstTokAtOrigin bool
 	HasFile    bool
 	Locs       []cmpb.Loc
 	ErrPos     []cmpb.Pos
@@ -66,7 +69,22 @@ func frontEnd() *cmpb.FrontEnd {
 	return fe
 }
 
-func observeFront(src string) (o frontObs) {
+// observeFront runs the real front end on one text under a deadline: the lexer, the parser and the walker
+// are loops over the input; a call that does not return stops the run with this text as the failure
+// (abortOnHang), because its goroutine cannot be killed.
+func observeFront(src string) frontObs {
+	ch := make(chan frontObs, 1)
+	go func() { ch <- observeFrontNow(src) }()
+	select {
+	case o := <-ch:
+		return o
+	case <-time.After(20 * time.Second):
+		abortOnHang("front end (j5parse.ParseFile)", map[string]any{"files": map[string]string{mainFile: src}, "call": "bcl lexer + parser + schema walker on one file"})
+		return frontObs{Panic: "timeout"}
+	}
+}
+
+func observeFrontNow(src string) (o frontObs) {
 	fe := frontEnd()
 	defer func() { frontPool <- fe }()
 	out := fe.Parse(mainFile, src)
@@ -79,6 +97,7 @@ func observeFront(src string) (o frontObs) {
 		o.ErrPos = cmpb.Positions(out.Err)
 		pr := bcl.ParseFile(src, true)
 		o.FromParser = pr.ErrKind != ""
+		o.FirstTokAtOrigin = firstTokenEndsAtOrigin(src)
 		return o
 	}
 	o.HasFile = out.HasFile
@@ -307,10 +326,12 @@ func walkerCoverage(outDir string, texts []string) (*covResult, error) {
 	if err := os.MkdirAll(covDir, 0o755); err != nil {
 		return nil, err
 	}
-	run := exec.Command(tmpBin, "-in", in)
+	ctx, cancel := context.WithTimeout(context.Background(), 90*time.Second)
+	defer cancel()
+	run := exec.CommandContext(ctx, tmpBin, "-in", in)
 	run.Env = append(os.Environ(), "GOCOVERDIR="+covDir)
 	if b, err := run.CombinedOutput(); err != nil {
-		return nil, fmt.Errorf("cov_cmpb run: %v: %s", err, truncate(string(b), 600))
+		return nil, fmt.Errorf("cov_cmpb run (killed after 90 s if it hangs): %v: %s", err, truncate(string(b), 600))
 	}
 	fn := exec.Command("go", "tool", "covdata", "func", "-i="+covDir)
 	fn.Dir = harness
@@ -396,7 +417,7 @@ func runFront(cfg *vh.Config, res *vh.Result, caseNo *int, texts []string, how [
 				res.Count("front_err_walker")
 			}
 			checkPositions(res, *caseNo, "front", "front end", o.ErrPos, content, mainFile, in)
-			if !o.FromParser && !firstTokenEndsAtOrigin(src) {
+			if !o.FromParser && !o.FirstTokAtOrigin {
 				// errpos.AddFilename gives an error without a position the zero Position (file:1:1): that is not
 				// a position of the error. (A lexer diagnostic on the first character legitimately is 1:1.)
 				for _, p := range o.ErrPos {
